@@ -79,6 +79,11 @@ def variants(tier, half):
     out.append(((("a", "a"), ("r",)), "gated"))
     out.append(((("a",), ("a", "r")), "gated"))
     out.append(((("a",), ("a",), ("r",)), "gated"))
+    if half == "async":
+        # one task activates the (not yet active) machine explicitly while others send events:
+        # the activation's callbacks are a critical section like any event's
+        out.append(((("__activate__",), ("a",)), False))
+        out.append(((("__activate__",), ("a",), ("b",)), False))
     if half == "threads":
         # the second sender first attaches a listener whose only callback is a coroutine
         # function (never awaited on the sync engine - C05's known finding - and irrelevant
@@ -102,6 +107,16 @@ def check(env, sm, sender_tags, errors, deadlock, init_value="s0"):
     order = []
     ons = {}
     per_tag = {}
+    init = [r for r in env.flat if r.event == "__initial__"]
+    rest = [r for r in env.flat if r.event != "__initial__"]
+    if init and rest:
+        if any(not r.ended for r in init):
+            return "the initial activation never finished"
+        end_init = max(r.seq_end for r in init)
+        first = min(rest, key=lambda r: r.seq_begin)
+        if first.seq_begin < end_init:
+            return (f"O1 overlap: {first.brief()} began (t={first.seq_begin}) before the callbacks "
+                    f"of the initial activation had finished (t={end_init})")
     for r in env.flat:
         if r.event == "__initial__":
             continue
@@ -296,6 +311,12 @@ def run_async(ch, events, nested, pre_activate):
     async def sender(i):
         await vl.point(("S", i, "start"))
         for k, ev in enumerate(events[i]):
+            if ev == "__activate__":
+                try:
+                    await impl.sm.activate_initial_state()
+                except Exception as e:   # noqa: BLE001
+                    errors.append((i, e))
+                continue
             env.seq += 1
             call = {"tag": tags[i][k], "ev": ev, "sender": i, "k": k, "inv": env.seq, "ret": None}
             calls.append(call)
@@ -329,7 +350,9 @@ def run_async(ch, events, nested, pre_activate):
     elif gated:
         r = check_gated(env, impl.sm, calls, errors, deadlock)
     else:
-        r = check(env, impl.sm, tags, errors, deadlock)
+        real = [[t for t, ev in zip(ts, evs) if ev != "__activate__"]
+                for ts, evs in zip(tags, events)]
+        r = check(env, impl.sm, real, errors, deadlock)
     return r if isinstance(r, tuple) else (r, None)
 
 
